@@ -19,7 +19,7 @@ import sys
 import time
 
 VERIF = os.path.dirname(os.path.dirname(os.path.abspath(__file__)))
-SCRATCH = "/tmp/verif-mut/repo"
+SCRATCH = os.environ.get("VERIF_MUT_SCRATCH", "/tmp/verif-mut/repo")
 
 SC = ["C01", "C02", "C03", "C04", "C09", "C13", "C14", "C15"]
 RS = ["C05", "C06", "C07", "C08", "C10", "C11", "C12", "C16", "C17", "C18", "C19", "C20"]
